@@ -37,7 +37,7 @@ func fieldLoadName(v ssa.Value) (string, ssa.Value) {
 	if !ok {
 		return "", nil
 	}
-	return st.Field(fa.Field).Name(), fa.X
+	return refFieldName(lastSeg(typeString(pt.Elem())), st.Field(fa.Field).Name()), fa.X
 }
 
 // tableMiss: facts at block b imply that a comma-ok lookup of `key` in the
